@@ -9,8 +9,9 @@ namespace BindgenModel.BitfieldAlloc
 
 structure RawBf where
   width : Nat
-  /-- clang's offset of the field in the struct, in bits -/
-  off : Nat
+  /-- clang's offset of the field in the struct, in bits (`none` inside class templates, where
+  libclang reports no offsets and the code lays the fields out itself) -/
+  off : Option Nat
   /-- size and alignment of the declared type, in bytes -/
   tsize : Nat
   talign : Nat
@@ -22,13 +23,19 @@ def alignTo (size align : Nat) : Nat :=
   let rem := size % align
   if rem = 0 then size else size + align - rem
 
-/-- does the code move the field away from clang's offset? -/
-def adjusts (packed : Bool) (bf : RawBf) : Bool :=
-  !packed && bf.off != 0 &&
-    (bf.width == 0 || Nat.land bf.off (bf.talign * 8 - 1) + bf.width > bf.tsize * 8)
+/-- does the code re-align a field that starts at bit `o`? -/
+def adjustsAt (packed : Bool) (bf : RawBf) (o : Nat) : Bool :=
+  !packed && o != 0 &&
+    (bf.width == 0 || Nat.land o (bf.talign * 8 - 1) + bf.width > bf.tsize * 8)
 
-def effOff (packed : Bool) (bf : RawBf) : Nat :=
-  if adjusts packed bf then alignTo bf.off (bf.talign * 8) else bf.off
+/-- does the code move the field away from clang's offset? (false when clang gave none) -/
+def adjusts (packed : Bool) (bf : RawBf) : Bool :=
+  match bf.off with
+  | some o => adjustsAt packed bf o
+  | none => false
+
+def effOff (packed : Bool) (bf : RawBf) (o : Nat) : Nat :=
+  if adjustsAt packed bf o then alignTo o (bf.talign * 8) else o
 
 structure St where
   start : Nat := 0
@@ -38,8 +45,9 @@ structure St where
 deriving Repr, DecidableEq
 
 def stepBf (packed : Bool) (s : St) (bf : RawBf) : St :=
-  let start := if s.unitBits = 0 then bf.off else s.start
-  let o := effOff packed bf
+  let start := if s.unitBits = 0 then bf.off.getD 0 else s.start
+  -- `bitfield.offset().unwrap_or(unit_size_in_bits)`
+  let o := effOff packed bf (bf.off.getD s.unitBits)
   { start := start, unitBits := o - start + bf.width, offs := s.offs ++ [o - start] }
 
 def allocRun (packed : Bool) (bfs : List RawBf) : St := bfs.foldl (stepBf packed) {}
